@@ -46,7 +46,7 @@ type C15Schema struct {
 	EnumTypes  []types.EntityType
 	ActionUIDs []types.EntityUID // sorted, groups included
 	Envs       []C15Env
-	Frag       bool // fragment schema (entities without attributes/tags/hierarchy) for the Lean correspondence
+	Frag       bool // (historic) restricted schema for the Lean correspondence; always false since the model covers entities
 }
 
 var c15TypeNames = []string{"User", "Group", "Doc", "Folder", "Org", "Team", "Device"}
@@ -119,6 +119,11 @@ func (tg *c15TypeGen) typ(depth int) sast.IsType {
 
 // C15GenSchema builds a random schema AST and resolves it through the real resolver.
 func (g *Gen) C15GenSchema(frag bool) (*C15Schema, error) {
+	// Since the entity extension of the Lean model (has / . on entity types, in, is, is..in, getTag, hasTag, every
+	// scope form) the "fragment" is the whole expression language: the schemas of the fragment stream are full
+	// schemas (attributes, tags, memberOf, enums, namespaces, action groups) and its policies use every operator.
+	// The parameter only says which stream asks.
+	frag = false
 	s := &C15Schema{Frag: frag}
 	ast0 := &sast.Schema{Entities: sast.Entities{}, Enums: sast.Enums{}, Actions: sast.Actions{}, CommonTypes: sast.CommonTypes{}, Namespaces: sast.Namespaces{}}
 	nsMode := g.pick(6) // 0: everything in NS, 1: mixed, else bare
